@@ -235,6 +235,16 @@ fn check_state(s: &St, ctx: &mut Ctx) -> Vec<St> {
         }
     }
     let want_cr = if s.v == NAT { None } else { chrono_of(s.u, s.v) };
+    // the other routes to a calendar value: the deprecated alias and the conversion trait
+    #[allow(deprecated)]
+    let (alias, tried): (Option<CrDateTime<Utc>>, Option<CrDateTime<Utc>>) = by_unit!(s.u, U => {
+        let d = DateTime::<U>::new(s.v);
+        (d.to_cr(), <CrDateTime<Utc> as TryFrom<DateTime<U>>>::try_from(d).ok())
+    });
+    ctx.evals += 2;
+    if alias != want_cr || tried != want_cr {
+        viol(ctx, "to_cr / TryFrom<DateTime> for chrono::DateTime", None, json!({"family": fam, "unit": UNITS[s.u as usize], "value": s.v, "nat": s.v == NAT}), format!("{want_cr:?}"), format!("to_cr {alias:?} / try_from {tried:?}"));
+    }
     if cr != want_cr {
         viol(ctx, "as_cr", None, json!({"family": fam, "unit": UNITS[s.u as usize], "value": s.v}), format!("{want_cr:?}"), format!("{cr:?}"));
     }
